@@ -1366,13 +1366,8 @@ class Symex:
                     return r
             ca = self.find_class_attr(obj.cls, attr) if obj.cls else None
             if ca is not None:
-                # a constant defined in the class body (or a base class) read through the instance
-                saved = (self.frames, self.module)
-                self.frames, self.module = [{}], ca[1]
-                try:
-                    return self.ev(ca[0])
-                finally:
-                    self.frames, self.module = saved
+                # a value defined in the class body (or a base class) read through the instance
+                return self.class_attr_value(ca[0], ca[1], attr)
             return T("attr", obj.term, attr)
         if isinstance(obj, T):
             if self.attr_hook is not None:
@@ -1393,12 +1388,7 @@ class Symex:
                 if isinstance(st, ast.Assign) and any(isinstance(t, ast.Name) and t.id == attr for t in st.targets) \
                         or isinstance(st, ast.AnnAssign) and isinstance(st.target, ast.Name) and st.target.id == attr \
                         and st.value is not None:
-                    saved = (self.frames, self.module)
-                    self.frames, self.module = [{}], obj.module
-                    try:
-                        return self.ev(st.value)
-                    finally:
-                        self.frames, self.module = saved
+                    return self.class_attr_value(st.value, obj.module, attr)
             return T("attr", sym(obj.short), attr)
         if isinstance(obj, Ext):
             return Ext(f"{obj.name}.{attr}")
@@ -1420,6 +1410,24 @@ class Symex:
             if r is not NotImplemented:
                 return r
         self.unsupported(node, f"attribute {attr} of {type(obj).__name__}")
+
+    def class_attr_value(self, node, mod, name):
+        """Value of the class-body assignment ``name = <node>``.  A *mutable* value (dict/list/set/record, e.g. a class
+        level cache) is evaluated state like a module-level one: it is evaluated once per path and that instance is kept
+        in ``module_state`` (emptied at the start of every path), so writes of an earlier call are seen by later reads on
+        the same path and every path starts from the freshly created class."""
+        key = (mod.name, f"<class body line {getattr(node, 'lineno', '?')}>.{name}")
+        if key in self.module_state:
+            return self.module_state[key]
+        saved = (self.frames, self.module)
+        self.frames, self.module = [{}], mod
+        try:
+            v = self.ev(node)
+        finally:
+            self.frames, self.module = saved
+        if isinstance(v, (dict, list, set, Obj)):
+            self.module_state[key] = v
+        return v
 
     def find_class_attr(self, clsref, name, _depth=0):
         """(value node, module) of ``name = <value>`` in the body of the class or of a base class of the library."""
